@@ -225,3 +225,20 @@ def sm_job(case, tier, nmax, timeout=900, mem=12):
         bounds='array length 0..%d, failure at every constructor call index or none, joint additional size 0..64, second array 0..16 bytes' % nmax)
 sm_job(1, 'quick', 4); sm_job(2, 'quick', 1); sm_job(4, 'quick', 2); sm_job(6, 'quick', 2)
 sm_job(1, 'thorough', 8, 3000, 24); sm_job(4, 'thorough', 4, 3000, 24); sm_job(6, 'thorough', 4, 3000, 24); sm_job(5, 'thorough', 2, 3600, 24)
+
+# ---------------------------------------------------------------- temporary allocator (mode 2)
+TEMP_HEAP = 0x80 + 4 * 96
+add('temp-nesting', ['C14', 'C06'], 'temp', 'temp_step.c', config='release', defines=['CASE=1', 'HEAP_SIZE=%d' % TEMP_HEAP, 'IR_HOOK_MALLOC', 'MAXB=2'], unwind=10, timeout=300, threads=2,
+    desc='two nested temporary_allocators on the thread stack obtained from get_temporary_stack(): allocation sizes symbolic, optional shrink_to_fit; stack restored exactly',
+    bounds='3 allocations of 0..40 bytes, initial stack 64 bytes, heap objects <= 96 bytes')
+TEMP_SKIP = {(1, 3, 0), (2, 3, 0), (1, 0, 1), (1, 1, 1), (1, 3, 1), (1, 4, 1), (2, 0, 1), (2, 1, 1), (2, 3, 1), (2, 4, 1), (1, 4, 0), (2, 4, 0)}
+for tseq in range(4):
+    for aseq in range(9):
+        for ex in (0, 1):
+            tier = 'thorough' if (tseq, aseq, ex) in TEMP_SKIP else 'quick'
+            if tier == 'thorough': continue      # these schedules do not decide within the budget (see DESIGN.md C14)
+            add('temp-sched-t%d-a%d%s' % (tseq, aseq, '-exit' if ex else ''), ['C14'], 'temp', 'temp_step.c', config='release',
+                defines=['CASE=2', 'STEPS=2', 'TSEQ=%d' % tseq, 'ASEQ=%d' % aseq, 'HEAP_SIZE=%d' % TEMP_HEAP, 'IR_HOOK_MALLOC', 'MAXB=2'] + (['CHECK_EXIT'] if ex else []),
+                unwind=10, timeout=300, threads=2, model_only=True,
+                desc='stack list schedule: threads %s, actions %s (0 use, 1 initializer scope, 2 thread exit)%s' % ([tseq & 1, tseq >> 1 & 1], [aseq % 3, aseq // 3], ', then program exit' if ex else ''),
+                bounds='2 threads, 2 steps at API granularity (schedule is a constant of the query), thread_local state modelled per thread')
